@@ -6,7 +6,7 @@
    A column is a sequence of L material indices (0-based indices into the materials ordered by ascending
    permittivity), layer 1 = bottom, layer L = top (increasing coordinate along the pillar axis).
    Real numbers (input voxels, inverse permittivities) are integers in units of 1/den.                   *)
-EXTENDS ParamArrays
+EXTENDS ParamArrays, TLC
 
 \* ---------- allowed columns: the property's wording ----------
 \* background only at the top end of the column; a single non-background material when requested
@@ -40,8 +40,8 @@ Dist(metric, v, a, L) == IF metric = "euclidean" \/ L = 1 THEN Euclid2(v, a, L) 
 ValCol(c, invs, L) == [ l \in 1..L |-> invs[c[l] + 1] ]
 \* all candidates at minimal distance (ties: every minimiser is acceptable)
 Minimisers(metric, v, cands, invs, L) ==
-    LET d == [ c \in cands |-> Dist(metric, v, ValCol(c, invs, L), L) ]
-        m == MinOf({ d[c] : c \in cands })
+    LET d == TLCEval([ c \in cands |-> Dist(metric, v, ValCol(c, invs, L), L) ])
+        m == TLCEval(MinOf({ d[c] : c \in cands }))
     IN  { c \in cands : d[c] = m }
 
 \* ---------- materials ----------
